@@ -68,10 +68,18 @@ fn suffix_ops(sel: u64) -> Vec<OpSpec> {
 }
 
 /// The recovered store must accept further writes, a flush, and a further restart.
-pub fn suffix_check(img: &Image, cfg: &CfgSpec, snap: Snapshot, sel: u64) -> Result<(), Fail> {
+pub fn suffix_check(img: &Image, cfg: &CfgSpec, snap: Snapshot, sel: u64, max_id: Option<(u64, u64)>) -> Result<(), Fail> {
     let dir = fresh_dir("sfx");
     shadowfs::write_image(&dir, img).map_err(|e| Fail::new("harness-io", e.to_string()))?;
     trace::reset_acks();
+    // half of the suffix runs use a cache that holds nothing, so that every entry of a closed
+    // chunk is read back from disk after the recovery
+    let mut cfg = cfg.clone();
+    if sel % 2 == 0 {
+        cfg.cache_items = Some(0);
+        cfg.cache_cap = Some(0);
+    }
+    let cfg = &cfg;
     let mut run = match Run::attach(&dir, cfg, snap, false) {
         Ok(r) => r,
         Err(e) => {
@@ -79,6 +87,12 @@ pub fn suffix_check(img: &Image, cfg: &CfgSpec, snap: Snapshot, sel: u64) -> Res
             return Err(Fail::new("reopen-of-image-failed", format!("second open of the same image failed: {e}")));
         }
     };
+    // keep the known C07 class out: ids appended before the crash (also ones truncated away
+    // since) count as "earlier ids"
+    run.avoid_low_reappend = true;
+    if max_id > run.max_id_seen {
+        run.max_id_seen = max_id;
+    }
     let r = (|| -> Result<(), Fail> {
         run.check_state()?;
         run.check_full_read()?;
@@ -140,6 +154,18 @@ fn record_recovery(img: &Image, cfg: &CfgSpec, outer: &Recorded) -> Option<(Reco
         layout: None,
     };
     Some((rec, init))
+}
+
+/// Highest log id that ever appeared in the history (appended or purged-to).
+pub fn max_id_of(model: &crate::model::Model) -> Option<(u64, u64)> {
+    model
+        .records
+        .iter()
+        .filter_map(|r| match r {
+            crate::model::Rec::Append(id, _) | crate::model::Rec::PurgeUpto(id) => Some(*id),
+            _ => None,
+        })
+        .max()
 }
 
 fn needs_repair(img: &Image) -> bool {
@@ -236,7 +262,7 @@ impl Prop for C05 {
             if let Outcome::Prefix(i) = out {
                 if suffix_done.len() < suffix_budget && suffix_done.insert(i * 4 + (ci.kind.len() % 4)) {
                     *labels.entry("suffix_checked".into()).or_insert(0) += 1;
-                    suffix_check(&ci.img, &icfg, rec.model.prefix[i].clone(), mix(case.sel, ci.q as u64)).map_err(|mut f| {
+                    suffix_check(&ci.img, &icfg, rec.model.prefix[i].clone(), mix(case.sel, ci.q as u64), max_id_of(&rec.model)).map_err(|mut f| {
                         f.msg = format!("{ctxs}: recovered the state after {i} records, then: {}; image: {}", f.msg, crash::describe_image(&ci.img));
                         f
                     })?;
